@@ -56,6 +56,39 @@ def do_tokens(text, filtered):
         return {'r': 'escaped', 'type': type(e).__name__, 'msg': str(e)[:500]}
 
 
+def _dump(x, depth=0):
+    if depth > 40:
+        return '...'
+    if isinstance(x, (str, int, float, bool)) or x is None:
+        return x
+    if isinstance(x, tuple):
+        return {'t': [_dump(y, depth + 1) for y in x]}
+    if isinstance(x, list):
+        return [_dump(y, depth + 1) for y in x]
+    d = {'cls': type(x).__name__}
+    if hasattr(x, 'tokens'):
+        d['tokens'] = _dump(x.tokens, depth + 1)
+    if isinstance(getattr(x, 'parsed', None), list) and type(x).__name__ == 'Identifier':
+        d['parsed'] = _dump(x.parsed, depth + 1)
+    return d
+
+
+def do_parsedump(text):
+    """first pass only: the node tree the LALR parser builds (before post_parse)"""
+    from lesscpy.lessc import parser as lp
+    sys.stdout = io.StringIO(); sys.stderr = io.StringIO()
+    try:
+        p = lp.LessParser(fail_with_exc=True)
+        p.scope.push()
+        p.target = '(dump)'
+        res = p.parser.parse(io.StringIO(text), lexer=p.lex)
+        return {'r': 'ok', 'tree': _dump(res), 'errors': list(p.register.errors)}
+    except SyntaxError as e:
+        return {'r': 'error', 'cls': type(e).__name__, 'msg': str(e)[:500]}
+    except BaseException as e:          # noqa
+        return {'r': 'escaped', 'type': type(e).__name__, 'msg': str(e)[:500]}
+
+
 def _num(x):
     # floats are reported exactly (hex) and as repr
     if isinstance(x, float):
@@ -115,6 +148,8 @@ def main():
                 ans = {'r': 'many', 'results': [do_compile(t, req.get('opts', {})) for t in req['texts']]}
             elif k == 'tokens':
                 ans = do_tokens(req['text'], req.get('filtered', True))
+            elif k == 'parsedump':
+                ans = do_parsedump(req['text'])
             elif k == 'pycall':
                 ans = do_pycall(req['fn'], req['args'])
             elif k == 'ping':
